@@ -10,11 +10,12 @@ from harness.drivers import c02
 chk = Check("C02X")
 def case(name, cfg, backend="einsum", cplx=True):
     return {"id": name, "k": 0, "cfg": cfg, "backend": backend, "draw": 1, "cplx": cplx, "seed": 1, "derived": {}}
-md = {"op": "mode_dot", "shape": [2, 3, 2], "mode": 1, "vec": False, "J": 2, "tr": True, "bad": False}
-kr = {"op": "khatri_rao", "rows": [2, 3], "R": 2, "skip": 0, "w": True, "mask": True, "bad": False}
-td = {"op": "tensordot", "s1": [2, 3], "s2": [2, 3, 3], "m1": [], "m2": [], "b1": [-1, -2], "b2": [-1, -3], "mint": False, "bint": False, "neg": "b"}
-sk = {"op": "sampled_kr", "rows": [2, 3, 2], "R": 2, "skip": 1, "ns": 3, "given": False}
-bad = {"op": "mode_dot", "shape": [2, 3], "mode": 0, "vec": True, "J": 0, "tr": False, "bad": True}
+F = {"ity": "int", "dt": "same", "ct": "list"}          # argument forms
+md = dict({"op": "mode_dot", "shape": [2, 3, 2], "mode": 1, "vec": False, "J": 2, "tr": True, "bad": False}, ity="i64", dt="int_f", ct="list", sc=[0, 1, 0, 0])
+kr = dict({"op": "khatri_rao", "rows": [2, 3], "R": 2, "skip": 0, "w": True, "mask": True, "bad": False}, ity="i32", dt="f32_f64", ct="tuple", sc=[0, 2, 0, 0])
+td = {"op": "tensordot", "s1": [2, 3], "s2": [2, 3, 3], "m1": [], "m2": [], "b1": [-1, -2], "b2": [-1, -3], "mint": False, "bint": False, "neg": "b", "sc": [0, 0, 0, 0], **F}
+sk = {"op": "sampled_kr", "rows": [2, 3, 2], "R": 2, "skip": 1, "ns": 3, "given": False, "sc": [0, 0, 0, 0, 0], **F}
+bad = {"op": "mode_dot", "shape": [2, 3], "mode": 0, "vec": True, "J": 0, "tr": False, "bad": True, "sc": [0, 0, 0, 0], **F}
 good = {n: c02.execute(case(n, c, be)) for n, c, be in [("good_mode_dot", md, "core"), ("good_khatri_rao", kr, "einsum"),
                                                         ("good_tensordot", td, "core"), ("good_sampled_kr", sk, "core"),
                                                         ("good_raises", bad, "einsum")]}
@@ -36,6 +37,9 @@ mut("cfg_missing_field", "good_mode_dot", "InDomain", lambda e: e["cfg"].pop("tr
 mut("cfg_other_mode", "good_mode_dot", "Inputs", lambda e: e["cfg"].__setitem__("mode", 0))
 mut("kr_unweighted", "good_khatri_rao", "Value", lambda e: e["out"].update(re=e["in"]["ts"][1]["re"], im=e["in"]["ts"][1]["im"]))
 mut("kr_weights_missing", "good_khatri_rao", "Inputs", lambda e: e["in"].__setitem__("w", c02.ABSENT))
+mut("cfg_scale_codes", "good_mode_dot", "InDomain", lambda e: e["cfg"].__setitem__("sc", [0, 0, 0, 0]))
+mut("cfg_int_form", "good_mode_dot", "InDomain", lambda e: e["cfg"].__setitem__("ity", "long"))
+mut("value_truncated", "good_mode_dot", "Exact", lambda e: e["out"].update(exact=False, re=[v // 2 * 2 for v in e["out"]["re"]]))
 mut("td_neg_flag", "good_tensordot", "InDomain", lambda e: e["cfg"].__setitem__("neg", "none"))
 mut("td_transposed", "good_tensordot", "Value", lambda e: e["out"].__setitem__("re", e["out"]["re"][::-1]))
 mut("sk_row", "good_sampled_kr", "Rows", lambda e: e["out"]["rows"].__setitem__(0, (e["out"]["rows"][0] + 1) % 4))
